@@ -97,7 +97,8 @@ func (g *srcGen) structType(d int) string {
 	for i := 0; i < n; i++ {
 		switch g.r.Intn(5) {
 		case 0:
-			fs = append(fs, g.pick("T", "*T", "pkg.Name", "G[int]"))
+			// embedded field (plain, pointer, qualified, instantiated), with or without a tag
+			fs = append(fs, g.pick("T", "*T", "pkg.Name", "*pkg.Name", "G[int]")+g.pick("", "", " `json:\",inline\"`", " \"tag\""))
 		case 1:
 			fs = append(fs, g.id()+", "+g.id()+" "+g.typ(d))
 		case 2:
